@@ -368,7 +368,9 @@ func (tc *TypeChecker) ValidateObjectAgainstTypeDef(obj map[string]interface{}, 
 	// Check required fields (fields with defaults are not required)
 	for _, field := range typeDef.Fields {
 		if field.Required && field.Default == nil {
-			if _, exists := obj[field.Name]; !exists {
+			// `!` means non-nullable: an explicit null is as missing as an
+			// absent key (CheckType below accepts null for every type).
+			if value, exists := obj[field.Name]; !exists || value == nil {
 				return fmt.Errorf("missing required field: %s", field.Name)
 			}
 		}
@@ -397,6 +399,17 @@ func (tc *TypeChecker) ValidateObjectAgainstTypeDef(obj map[string]interface{}, 
 	}
 
 	return nil
+}
+
+// RequiresObject reports whether a value of the type definition cannot be
+// absent: it has at least one required field without a default.
+func RequiresObject(typeDef TypeDef) bool {
+	for _, field := range typeDef.Fields {
+		if field.Required && field.Default == nil {
+			return true
+		}
+	}
+	return false
 }
 
 // ValidateArrayElements validates all elements of an array against a type
